@@ -813,13 +813,20 @@ def _copy_prop(fn):
                         j_ = next((i for i in range(k_ - 1, -1, -1) if isinstance(body[i], ast.Assign) and len(body[i].targets) == 1
                                    and isinstance(body[i].targets[0], ast.Name) and body[i].targets[0].id == y), None)
                         if j_ is not None:
-                            between = body[j_:k_]
-                            touched_x = any(isinstance(n_, ast.Name) and n_.id == x for s2 in between for n_ in ast.walk(s2))
-                            y_loads_here = sum(_count_loads_in(s2, y) for s2 in body[j_ + 1:k_ + 1])
-                            if not touched_x and y_loads_here == loads.get(y, 0):
+                            between = body[j_ + 1:k_]
+                            # x may be READ by the expression y is bound to (`x = f(x)` is what the pair spells)
+                            touched_x = any(isinstance(n_, ast.Name) and n_.id == x for s2 in between for n_ in ast.walk(s2)) or \
+                                any(isinstance(n_, ast.Name) and n_.id == x and not isinstance(n_.ctx, ast.Load) for n_ in ast.walk(body[j_]))
+                            y_loads_here = sum(_count_loads_in(s2, y) for s2 in body[j_ + 1:])
+                            later_use = [i for i in range(k_ + 1, len(body)) if _count_loads_in(body[i], y)]
+                            rebound_x = any(isinstance(n_, ast.Name) and n_.id == x and not isinstance(n_.ctx, ast.Load)
+                                            for i in range(k_ + 1, (later_use[-1] + 1) if later_use else k_ + 1) for n_ in ast.walk(body[i]))
+                            if not touched_x and not rebound_x and y_loads_here == loads.get(y, 0):
                                 ren = _Ren({y: x})
-                                for i in range(j_, k_):
-                                    body[i] = ren.visit(body[i])
+                                body[j_].targets[0].id = x
+                                for i in range(j_ + 1, len(body)):
+                                    if body[i] is not st:
+                                        body[i] = ren.visit(body[i])
                                 body.remove(st)
                                 done = True
                                 break
@@ -893,13 +900,34 @@ def _pure_local_expr(e):
         if isinstance(x, ast.Call):
             if not (isinstance(x.func, ast.Name) and x.func.id in _PURE_BUILTINS and not x.keywords):
                 return False
+        elif isinstance(x, ast.Attribute):
+            # reading a field no statement of the whole tree ever stores to (a tuple / record field): fixed once its owner is
+            if not (_STORED_ATTRS is not None and isinstance(x.value, ast.Name) and isinstance(x.ctx, ast.Load)
+                    and x.attr not in _STORED_ATTRS and not x.attr.startswith('__')):
+                return False
         elif not isinstance(x, (ast.Name, ast.Constant, ast.BinOp, ast.UnaryOp, ast.BoolOp, ast.Compare, ast.IfExp, ast.Tuple,
                                 ast.expr_context, ast.operator, ast.unaryop, ast.boolop, ast.cmpop)):
-            return False          # no displays (a new object each time), no attribute / subscript reads, nothing lazy
+            return False          # no displays (a new object each time), no other attribute / subscript reads, nothing lazy
     return True
 
 
-def _disturbs(node, names):
+def _frozen_roots(e):
+    """names `e` reads only as the owner of a never-stored field: only re-binding them can change `e`"""
+    roots = {x.value.id for x in ast.walk(e) if isinstance(x, ast.Attribute) and isinstance(x.value, ast.Name)}
+    owners = {id(x.value) for x in ast.walk(e) if isinstance(x, ast.Attribute) and isinstance(x.value, ast.Name)}
+    plain = {x.id for x in ast.walk(e) if isinstance(x, ast.Name) and id(x) not in owners}
+    return roots - plain
+
+
+def _disturbs(node, names, rebind_only=()):
+    if rebind_only:
+        if any(isinstance(x, ast.Name) and x.id in rebind_only and isinstance(x.ctx, (ast.Store, ast.Del)) for x in ast.walk(node)):
+            return True
+        names = set(names) - set(rebind_only)
+    return _disturbs0(node, names)
+
+
+def _disturbs0(node, names):
     """may executing `node` change the value of an expression over `names`?  (re-binding, augmented assignment, deletion,
     a method call on one of them other than a known reader, passing one of them to a call that is not a pure builtin,
     storing into one of them)"""
@@ -944,6 +972,7 @@ def _propagate_pure(fn):
                     if t in declared or stores.get(t, 0) != 1 or loads.get(t, 0) == 0:
                         continue
                     names = {x.id for x in ast.walk(e) if isinstance(x, ast.Name)}
+                    frozen = _frozen_roots(e)
                     if t in names or any(stores.get(nm, 0) == 0 and nm not in _PURE_BUILTINS for nm in names if nm not in _PURE_BUILTINS) and False:
                         continue
                     # every read of t lies in the statements after the binding, up to the last one that reads it
@@ -959,14 +988,14 @@ def _propagate_pure(fn):
                     ok = True
                     for j in range(k + 1, last + 1):
                         sj = body[j]
-                        if not _disturbs(sj, names):
+                        if not _disturbs(sj, names, frozen):
                             continue
                         # a statement that may change E is fine only as the last reader, reading t in its head alone,
                         # and if that head is evaluated once (no loop)
                         heads = _head_fields(sj)
                         in_head = sum(_count_loads_in(getattr(n_, f_), t) for n_, f_ in heads if getattr(n_, f_) is not None)
                         if j == last and not isinstance(sj, (ast.For, ast.AsyncFor, ast.While)) and in_head == _count_loads_in(sj, t) \
-                                and not any(_disturbs(getattr(n_, f_), names) for n_, f_ in heads if getattr(n_, f_) is not None):
+                                and not any(_disturbs(getattr(n_, f_), names, frozen) for n_, f_ in heads if getattr(n_, f_) is not None):
                             continue
                         ok = False
                         break
@@ -975,7 +1004,7 @@ def _propagate_pure(fn):
                     # a read inside a loop body is repeated: nothing in that loop may change E either
                     for j in range(k + 1, last + 1):
                         for lp in [x for x in ast.walk(body[j]) if isinstance(x, (ast.For, ast.AsyncFor, ast.While))]:
-                            if _count_loads_in(lp, t) and _disturbs(lp, names):
+                            if _count_loads_in(lp, t) and _disturbs(lp, names, frozen):
                                 ok = False
                     if not ok:
                         continue
@@ -1237,6 +1266,7 @@ def _not_dm(e):
 
 # ----------------------------------------------------------------------------------------------------------------------
 # N25: a named tuple the rules were never confirmed against is the plain tuple it is at run time
+_STORED_ATTRS = None      # attribute names some statement of the tree may store to (None: tree not scanned)
 _NEW_TUPLES = {}          # type name -> [field names]
 _FIELD_INDEX = {}         # field name -> (type name, index) for fields that cannot be mistaken for any other attribute
 
@@ -1245,13 +1275,16 @@ def scan_new_tuples(sources):
     """sources: {relpath: source text} of the whole tree.  Finds `T = namedtuple('T', 'a b')` / `class T(NamedTuple): a: X; b: Y`
     definitions whose name the reference table does not know; a field is convertible when no other attribute, method or
     class-level name of the tree is spelt the same."""
+    global _STORED_ATTRS
     _NEW_TUPLES.clear()
     _FIELD_INDEX.clear()
+    _STORED_ATTRS = None
     known = set()
     for ent in _reference().values():
         for nm in ent.get('constants', []) + ent.get('functions', []):
             known.add(nm.split('.')[0])
     other_attrs = set()
+    dyn_attrs = set()
     found = {}
     hazard = False
     for rel, src in sources.items():
@@ -1259,6 +1292,12 @@ def scan_new_tuples(sources):
             tree = ast.parse(src)
         except SyntaxError:
             continue
+        if any(isinstance(n, ast.Name) and n.id in ('setattr', 'delattr', '__dict__', 'vars') for n in ast.walk(tree)) or \
+                any(isinstance(n, ast.Attribute) and n.attr in ('__dict__', '__setattr__') for n in ast.walk(tree)):
+            # attributes set by name: every identifier-like string of that file may be one
+            for n in ast.walk(tree):
+                if isinstance(n, ast.Constant) and isinstance(n.value, str) and n.value.isidentifier():
+                    dyn_attrs.add(n.value)
         for n in ast.walk(tree):
             if isinstance(n, ast.Attribute):
                 if isinstance(n.ctx, (ast.Store, ast.Del)):
@@ -1291,6 +1330,7 @@ def scan_new_tuples(sources):
                     for t in ([b.target] if isinstance(b, ast.AnnAssign) else b.targets if isinstance(b, ast.Assign) else []):
                         if isinstance(t, ast.Name):
                             other_attrs.add(t.id)
+    _STORED_ATTRS = other_attrs | dyn_attrs
     if hazard:
         return
     for name, defs in found.items():
@@ -1365,6 +1405,130 @@ def _untuple(tree):
                     st.targets[0] = ast.copy_location(ast.Tuple(elts=[ast.copy_location(ast.Name(id=nm, ctx=ast.Store()), st) for nm in names],
                                                                 ctx=ast.Store()), st.targets[0])
                     bound |= set(names)
+
+
+def _inline_element_alias(fn):
+    """N26: a local that names one element of a container for a few statements is that element
+
+        bucket = self.index[key]                self.index[key].remove(x)
+        bucket.remove(x)                ->      if not self.index[key]:
+        if not bucket:                              del self.index[key]
+            del self.index[key]
+
+    The local is bound once, to `<name or attribute chain>[<name or constant>]`; everything up to its last read is in the
+    same statement list; in between nothing is called except methods of the local itself and pure builtins, nothing is
+    awaited, and nothing but plain locals (other than the names the element expression reads) is written - so the container
+    still holds the same object under the same key at every read."""
+    loads, stores, declared = _name_counts(fn)
+    for parent in [fn] + list(_own_walk(fn)):
+        for fld in ('body', 'orelse', 'finalbody'):
+            body = getattr(parent, fld, None)
+            if not (isinstance(body, list) and body and isinstance(body[0], ast.stmt)):
+                continue
+            k = 0
+            while k < len(body):
+                st = body[k]
+                k += 1
+                if not (isinstance(st, ast.Assign) and len(st.targets) == 1 and isinstance(st.targets[0], ast.Name) and isinstance(st.value, ast.Subscript)
+                        and isinstance(st.value.slice, (ast.Name, ast.Constant)) and _pure_chain(st.value.value)):
+                    continue
+                t = st.targets[0].id
+                if t in declared or stores.get(t, 0) != 1 or not loads.get(t, 0):
+                    continue
+                reads = {n.id for n in ast.walk(st.value) if isinstance(n, ast.Name)}
+                if t in reads:
+                    continue
+                rest = body[k:]
+                using = [i for i, s2 in enumerate(rest) if any(isinstance(n, ast.Name) and n.id == t for n in ast.walk(s2))]
+                if not using or sum(_count_loads_in(s2, t) for s2 in rest) != loads[t]:
+                    continue
+                last = rest[using[-1]]
+                region = list(rest[:using[-1]])
+                if isinstance(last, ast.If) and not any(isinstance(n, ast.Name) and n.id == t for s2 in last.body + last.orelse for n in ast.walk(s2)):
+                    region_nodes = [n for s2 in region for n in ast.walk(s2)] + list(ast.walk(last.test))
+                else:
+                    region_nodes = [n for s2 in region + [last] for n in ast.walk(s2)]
+                ok = True
+                for n in region_nodes:
+                    if isinstance(n, (ast.Await, ast.Yield, ast.YieldFrom, ast.FunctionDef, ast.AsyncFunctionDef, ast.Lambda, ast.ClassDef,
+                                      ast.For, ast.AsyncFor, ast.While, ast.With, ast.AsyncWith, ast.Try)):
+                        ok = False
+                    elif isinstance(n, ast.Call):
+                        own = isinstance(n.func, ast.Attribute) and isinstance(n.func.value, ast.Name) and n.func.value.id == t
+                        pure = isinstance(n.func, ast.Name) and n.func.id in _PURE_BUILTINS
+                        ok = ok and (own or pure)
+                    elif isinstance(n, (ast.Attribute, ast.Subscript)) and isinstance(n.ctx, (ast.Store, ast.Del)):
+                        ok = False
+                    elif isinstance(n, ast.Name) and isinstance(n.ctx, (ast.Store, ast.Del)) and n.id in reads:
+                        ok = False
+                if not ok:
+                    continue
+                sub = _SubstMany({}, {t: st.value})
+                for i in using:
+                    rest[i] = sub.visit(rest[i])
+                body[k:] = rest
+                body.remove(st)
+                k -= 1
+                loads, stores, declared = _name_counts(fn)
+
+
+def _setdefault_spellings(fn):
+    """N27: the two long-hand spellings of dict.setdefault with a fresh empty container
+
+        x = D.get(K)                                      if K not in D:
+        if x is None:               x = D.setdefault(K, V)        D[K] = V            x = D.setdefault(K, V)
+            x = D[K] = V    ->                            x = D[K]            ->
+
+    V is an empty display or a no-argument set() / list() / dict() call (building it eagerly has no effect); D and K are names,
+    constants or attribute chains.  (The first form assumes D holds no None values - a container of containers.)"""
+    def simple(e):
+        return _pure_chain(e) or isinstance(e, (ast.Name, ast.Constant))
+
+    def empty(v):
+        return (isinstance(v, (ast.List, ast.Dict, ast.Set)) and not getattr(v, 'elts', getattr(v, 'keys', None))) or \
+            (isinstance(v, ast.Call) and isinstance(v.func, ast.Name) and v.func.id in ('set', 'list', 'dict') and not v.args and not v.keywords)
+
+    def same(a, b):
+        return ast.dump(a) == ast.dump(b)
+
+    for parent in [fn] + list(_own_walk(fn)):
+        for fld in ('body', 'orelse', 'finalbody'):
+            body = getattr(parent, fld, None)
+            if not (isinstance(body, list) and len(body) >= 2 and isinstance(body[0], ast.stmt)):
+                continue
+            k = 0
+            while k + 1 < len(body):
+                a, b = body[k], body[k + 1]
+                k += 1
+                # form 1
+                if isinstance(a, ast.Assign) and len(a.targets) == 1 and isinstance(a.targets[0], ast.Name) and isinstance(a.value, ast.Call) \
+                        and isinstance(a.value.func, ast.Attribute) and a.value.func.attr == 'get' and len(a.value.args) == 1 and not a.value.keywords \
+                        and simple(a.value.func.value) and simple(a.value.args[0]) \
+                        and isinstance(b, ast.If) and not b.orelse and len(b.body) == 1 and isinstance(b.test, ast.Compare) and len(b.test.ops) == 1 \
+                        and isinstance(b.test.ops[0], ast.Is) and isinstance(b.test.left, ast.Name) and b.test.left.id == a.targets[0].id \
+                        and isinstance(b.test.comparators[0], ast.Constant) and b.test.comparators[0].value is None:
+                    x, D, K = a.targets[0].id, a.value.func.value, a.value.args[0]
+                    st = b.body[0]
+                    if isinstance(st, ast.Assign) and len(st.targets) == 2 and empty(st.value):
+                        tn = [t for t in st.targets if isinstance(t, ast.Name) and t.id == x]
+                        ts = [t for t in st.targets if isinstance(t, ast.Subscript) and same(t.value, D) and same(t.slice, K)]
+                        if len(tn) == 1 and len(ts) == 1:
+                            a.value = ast.copy_location(ast.Call(func=ast.copy_location(ast.Attribute(value=D, attr='setdefault', ctx=ast.Load()), a.value.func),
+                                                                 args=[K, st.value], keywords=[]), a.value)
+                            del body[k]
+                            continue
+                # form 2
+                if isinstance(a, ast.If) and not a.orelse and len(a.body) == 1 and isinstance(a.test, ast.Compare) and len(a.test.ops) == 1 \
+                        and isinstance(a.test.ops[0], ast.NotIn) and simple(a.test.left) and simple(a.test.comparators[0]) \
+                        and isinstance(a.body[0], ast.Assign) and len(a.body[0].targets) == 1 and isinstance(a.body[0].targets[0], ast.Subscript) \
+                        and same(a.body[0].targets[0].value, a.test.comparators[0]) and same(a.body[0].targets[0].slice, a.test.left) and empty(a.body[0].value) \
+                        and isinstance(b, ast.Assign) and len(b.targets) == 1 and isinstance(b.targets[0], ast.Name) and isinstance(b.value, ast.Subscript) \
+                        and same(b.value.value, a.test.comparators[0]) and same(b.value.slice, a.test.left):
+                    D, K = a.test.comparators[0], a.test.left
+                    b.value = ast.copy_location(ast.Call(func=ast.copy_location(ast.Attribute(value=D, attr='setdefault', ctx=ast.Load()), b.value),
+                                                         args=[K, a.body[0].value], keywords=[]), b.value)
+                    del body[k - 1]
+                    continue
 
 
 def _iteration_count(fn):
@@ -1565,6 +1729,8 @@ def normalize(tree, relpath=None):
     for n in ast.walk(tree):
         if isinstance(n, (ast.FunctionDef, ast.AsyncFunctionDef)):
             _beta_reduce(n)
+            _setdefault_spellings(n)
+            _inline_element_alias(n)
             _enumerate_with_start(n)
             _iteration_count(n)
             _flag_loops(n)
@@ -1708,6 +1874,32 @@ def _fold_constants(tree):
                     return ast.copy_location(ast.Constant(value=v), n)
             return n
     return F().visit(tree)
+
+
+def _fold_tail_temps(fn):
+    """a helper that ends `t = E ; return F(t)` (or `t, = E`, read as E[0]) with t read once, first thing: `return F(E)` - so
+    that it can stand as an expression where it is called"""
+    while len(fn.body) >= 2 and isinstance(fn.body[-1], ast.Return) and fn.body[-1].value is not None and isinstance(fn.body[-2], ast.Assign) \
+            and len(fn.body[-2].targets) == 1:
+        a, r = fn.body[-2], fn.body[-1]
+        tg = a.targets[0]
+        if isinstance(tg, ast.Name):
+            t, e = tg.id, a.value
+        elif isinstance(tg, ast.Tuple) and len(tg.elts) == 1 and isinstance(tg.elts[0], ast.Name):
+            t, e = tg.elts[0].id, ast.copy_location(ast.Subscript(value=a.value, slice=ast.copy_location(ast.Constant(value=0), a), ctx=ast.Load()), a)
+        else:
+            return
+        order = _exec_order(r.value)
+        uses = [i for i, (n, c) in enumerate(order) if isinstance(n, ast.Name) and n.id == t and isinstance(n.ctx, ast.Load)]
+        if len(uses) != 1 or order[uses[0]][1]:
+            return
+        # nothing with an effect is evaluated before the single read
+        if any(isinstance(n, (ast.Call, ast.Await, ast.Subscript, ast.Attribute)) for n, _c in order[:uses[0]]):
+            return
+        if any(isinstance(n, ast.Name) and n.id == t for s_ in fn.body[:-2] for n in ast.walk(s_)):
+            return
+        r.value = _SubstMany({}, {t: e}).visit(r.value)
+        del fn.body[-2]
 
 
 def _guards_to_ifexp(fn):
@@ -2150,6 +2342,7 @@ def _inline_new_helpers(tree, relpath):
                             and isinstance(h_.body[0].value.value, str) and len(h_.body) > 1:
                         h_.body = h_.body[1:]
                     h_ = _guards_to_ifexp(h_)
+                    _fold_tail_temps(h_)
                     if not _single_exit(h_):
                         h_ = _guards_to_nesting(h_)
                     if not _single_exit(h_):
@@ -2496,6 +2689,25 @@ def _inline_new_helpers(tree, relpath):
             body = getattr(node, fld, None)
             if not (isinstance(body, list) and body and isinstance(body[0], ast.stmt)):
                 continue
+            if isinstance(node, (ast.FunctionDef, ast.AsyncFunctionDef)) and fld == 'body' and len(body) >= 2:
+                # `if C: x = h(...)` + `return x` at the function's tail, h a helper of several exits:
+                # `if not C: return x` + `return h(...)`  - the form the tail inliner reads
+                g_, r_ = body[-2], body[-1]
+                if isinstance(r_, ast.Return) and isinstance(r_.value, ast.Name) and isinstance(g_, ast.If) and not g_.orelse and len(g_.body) == 1 \
+                        and isinstance(g_.body[0], ast.Assign) and len(g_.body[0].targets) == 1 and isinstance(g_.body[0].targets[0], ast.Name) \
+                        and g_.body[0].targets[0].id == r_.value.id:
+                    v_ = g_.body[0].value
+                    c_ = v_.value if isinstance(v_, ast.Await) else v_
+                    if isinstance(c_, ast.Call) and not any(isinstance(x, ast.Name) and x.id == r_.value.id for x in ast.walk(c_)):
+                        tail_ok[0] = True
+                        try:
+                            got_ = helper_of(c_, cls)
+                        finally:
+                            tail_ok[0] = False
+                        if got_ is not None and getattr(got_[0], '_verif_tail_only', False):
+                            body[-2:] = [ast.copy_location(ast.If(test=_not(g_.test), body=[ast.copy_location(ast.Return(value=fast_copy(r_.value)), g_)],
+                                                                  orelse=[]), g_),
+                                         ast.copy_location(ast.Return(value=v_), g_.body[0])]
             new = []
             for i_st, st in enumerate(body):
                 sub = None
